@@ -570,6 +570,9 @@ fn build_avcc_fmp4(config: &FragmentConfig) -> Vec<u8> {
     payload.push(1); // Number of PPS
     payload.extend_from_slice(&(config.pps.len() as u16).to_be_bytes());
     payload.extend_from_slice(&config.pps);
+    if let Some(fields) = crate::codec::h264::avcc_high_profile_fields(&config.sps) {
+        payload.extend_from_slice(&fields);
+    }
     build_box(b"avcC", &payload)
 }
 
